@@ -24,7 +24,7 @@ def hyps_of(path, obl):
 # (engine, seed, share of the budget). z3's default combined solver picks its strategy from the timeout
 # value (a 20 ms proof became `unknown` under a 5 s limit but not under a 10 s one), so its slices are never
 # below 10 s; the plain SMT core (SimpleSolver) is insensitive to the limit and often complementary.
-SCHEDULE = (("default", "all", 0, 0.25), ("core", "rel", 0, 0.12), ("core", "all", 0, 0.13), ("default", "rel", 0, 0.25),
+SCHEDULE = (("core", "rel", 0, 0.08), ("default", "all", 0, 0.25), ("core", "all", 0, 0.17), ("default", "rel", 0, 0.25),
             ("core", "rel", 11, 0.25))
 
 
@@ -103,7 +103,7 @@ def _attempts(axioms, hyps, goal, timeout_ms, use_cvc5):
     last = None
     s = None
     for attempt, (engine, which, seed, share) in enumerate(SCHEDULE):
-        if which == "rel" and len(rel) == len(hyps):
+        if which == "rel" and len(rel) == len(hyps) and engine == "default":
             continue
         if engine == "default":
             s = z3.Solver()
